@@ -43,6 +43,7 @@ type OriginResp struct {
 	Body          []byte
 	Chunked       bool  // no Content-Length, ContentLength = -1
 	ConnectErrors int   // this many attempts fail with a connection error first
+	DrainOnFail   bool  // a failing attempt reads the request body to its end first (the destination took the request, then dropped the connection)
 	ReadErrAt     int   // >= 0: body read fails after this many bytes
 	ReadSizes     []int // body handed out in reads of these sizes (then the rest)
 	TrackFetch    bool  // count this answer in the performer's fetch log
@@ -227,6 +228,9 @@ func (p *Performer) Do(req *http.Request) (*http.Response, error) {
 		p.failed[key]++
 		c.Failed = true
 		p.Contacts = append(p.Contacts, c)
+		if r != nil && r.DrainOnFail && req.Body != nil {
+			ioutil.ReadAll(req.Body)
+		}
 		return nil, &net.OpError{Op: "dial", Net: "tcp", Err: errors.New("verif: connection refused")}
 	}
 	if req.Body != nil {
